@@ -405,3 +405,8 @@ def run(ctx, rep):
             rep.obligations.append(dict(o, rule="stored-messages-survive-rollback", key=o["key"].replace("/%s/" % o["rule"], "/stored-messages-survive-rollback/")))
             n += 1
     rep.floor("stored-messages-survive-rollback", "rollback statements / cascade edges examined", n, 10)
+    # the echo of an own application message confirms the stored message; it must never be taken for the echo of an own commit
+    # (which merges the pending commit instead): shared with C07
+    rep.clause("C02.7 the own-pending-commit shortcut is taken for a Commit only, never for the echo of an own application message")
+    import c07
+    c07.clause_own_commit_pending(prog, rep)
